@@ -196,43 +196,106 @@ contract("prop::C14.do_call_filter_order", params=dict(cnarr=ObjT("CopyNumArray"
 # ----------------------------------------------------------------------------- deductive: the level each filter hands to the run merger
 from .c_call import CHROM, GENE      # noqa: E402
 
-opaque_fun("SQUASH")
-
 _SEGT = ObjT("CopyNumArray", data=TabT(index="range", chromosome=CHROM, start=Int, end=Int, gene=GENE, log2=Real, probes=Int,
                                        weight=Real, ci_lo=Real, ci_hi=Real, sem=Real, cn=Int), meta=DictT())
 
-contract("cnvlib/segfilters.py::squash_by_groups", params=dict(cnarr=_SEGT, levels=SeriesT(NReal), by_arm=Bool),
-         returns=FunResT("SQUASH", "levels"), trusted=True, requires=[], ensures=[], props=(), domain="skip",
-         notes="at call sites squash_by_groups(segarr, levels) is the opaque function SQUASH of the level vector (for the "
-               "same segment table); what it does with the levels is the bounded contracts' business")
+# The runs formed by the merger are the ghost blocks [group_lo(r), group_lo(r+1)), r < n_groups().  The clauses below are
+# written once, over a segment table `cnarr` and a level vector `levels`; each filter instantiates `levels` with its own
+# level definition.
+_LO, _HI = "group_lo(r)", "group_lo(r + 1)"
+_SORTED_BY_CHROM = ("forall(0, len(T.data), lambda a: forall(0, len(T.data), lambda b: forall(0, len(T.data), lambda c: "
+                    "implies(a < b and b < c and T.data.chromosome[a] == T.data.chromosome[c], "
+                    "T.data.chromosome[b] == T.data.chromosome[a]))))")
+_RUN_CLAUSES = [
+    # the runs: consecutive rows [group_lo(r), group_lo(r+1)), r < n_groups(), partition the table in order
+    ("one_row_per_run", "len(result.data) == n_groups() and group_lo(0) == 0 and group_lo(n_groups()) == len(cnarr.data) and "
+                        "forall(0, n_groups(), lambda r: LO < HI)"),
+    # inside a run neighbouring segments share chromosome and level ...
+    ("runs_share_chromosome", "forall(0, n_groups(), lambda r: forall(0, len(cnarr.data), lambda k: implies(LO <= k and k + 1 < HI, "
+                              "cnarr.data.chromosome[k] == cnarr.data.chromosome[k + 1])))"),
+    ("runs_share_level", "forall(0, n_groups(), lambda r: forall(0, len(cnarr.data), lambda k: implies(LO <= k and k + 1 < HI, "
+                         "levels[k] == levels[k + 1])))"),
+    # ... and a run ends only where the chromosome or the level changes (runs are maximal)
+    ("runs_are_maximal", "forall(1, n_groups(), lambda r: let(lambda k: cnarr.data.chromosome[k] != cnarr.data.chromosome[k + 1] or "
+                         "levels[k] != levels[k + 1], LO - 1))"),
+    # each run becomes one segment: first start to last end ...
+    ("run_summary", "forall(0, n_groups(), lambda r: result.data.chromosome[r] == cnarr.data.chromosome[LO] and "
+                    "result.data.start[r] == cnarr.data.start[LO] and result.data.end[r] == cnarr.data.end[HI - 1])"),
+    # ... whose probes and weight are the sums over the run and whose log2 is the weight-averaged log2 of the run
+    ("run_totals", "forall(0, n_groups(), lambda r: result.data.probes[r] == sumof(Vec(HI - LO, lambda j: cnarr.data.probes[LO + j])) and "
+                   "result.data.weight[r] == sumof(Vec(HI - LO, lambda j: cnarr.data.weight[LO + j])))"),
+    ("run_log2", "forall(0, n_groups(), lambda r: result.data.log2[r] == ite(sumof(Vec(HI - LO, lambda j: cnarr.data.weight[LO + j])) > 0, "
+                 "sumof(Vec(HI - LO, lambda j: cnarr.data.log2[LO + j] * cnarr.data.weight[LO + j])) / "
+                 "sumof(Vec(HI - LO, lambda j: cnarr.data.weight[LO + j])), "
+                 "sumof(Vec(HI - LO, lambda j: cnarr.data.log2[LO + j])) / (HI - LO)))"),
+]
+_RUN_CLAUSES = [(lab, t.replace("LO", _LO).replace("HI", _HI)) for lab, t in _RUN_CLAUSES]
+_RESULT_T = ObjT("CopyNumArray", data=TabT(index="range", chromosome=CHROM, start=Int, end=Int, log2=Real, gene=GENE, probes=Int,
+                                           weight=Real, cn=Real), meta=DictT())
 
 contract(
-    "cnvlib/segfilters.py::ci",
-    params=dict(segarr=_SEGT), returns=FunResT("SQUASH", "segarr"), requires=[],
-    ensures=[("levels_from_ci", "result == SQUASH(Vec(len(segarr.data), lambda k: "
-                                "ite(segarr.data.ci_hi[k] < 0, -1, ite(segarr.data.ci_lo[k] > 0, 1, 0))))")],
+    "cnvlib/segfilters.py::squash_by_groups",
+    params=dict(cnarr=_SEGT, levels=SeriesT(Real, like="cnarr"), by_arm=Lit(False)),
+    returns=_RESULT_T,
+    requires=[
+        # segments of one chromosome are consecutive rows (a sorted segment table)
+        _SORTED_BY_CHROM.replace("T", "cnarr"),
+        # the filters' levels are whole numbers (-1/0/1, copy numbers)
+        "forall(0, len(levels), lambda k: levels[k] == floor(levels[k]))",
+        "forall(0, len(cnarr.data), lambda k: cnarr.data.weight[k] >= 0)",
+    ],
+    ghost=dict(chain_ensures=True, locals_visible=True, eager_triggers=True, introduces_groups=True),
+    ensures=[
+        # stepping stones (each proved, then used by the clauses below): the chromosome rank and the level-change counter
+        # are both sorted along the rows, so their sum -- the grouping key -- is, and equal keys mean equal parts
+        ("rank_sorted", "forall(0, len(cnarr.data), lambda k: implies(k + 1 < len(cnarr.data), local_chrom_col[k] <= local_chrom_col[k + 1]))"),
+        ("counter_sorted", "forall(0, len(cnarr.data), lambda k: implies(k + 1 < len(cnarr.data), "
+                           "local_change_levels[k] - local_chrom_col[k] <= local_change_levels[k + 1] - local_chrom_col[k + 1]))"),
+        ("counter_steps_where_level_changes", "forall(0, len(cnarr.data), lambda k: implies(k + 1 < len(cnarr.data), "
+            "(local_change_levels[k] - local_chrom_col[k] == local_change_levels[k + 1] - local_chrom_col[k + 1]) == (levels[k] == levels[k + 1])))"),
+        ("rank_steps_where_chromosome_changes", "forall(0, len(cnarr.data), lambda k: implies(k + 1 < len(cnarr.data), "
+            "(local_chrom_col[k] == local_chrom_col[k + 1]) == (cnarr.data.chromosome[k] == cnarr.data.chromosome[k + 1])))"),
+        ("key_steps_only_where_something_changes", "forall(0, len(cnarr.data), lambda k: implies(k + 1 < len(cnarr.data) and "
+            "local_change_levels[k] < local_change_levels[k + 1], cnarr.data.chromosome[k] != cnarr.data.chromosome[k + 1] or "
+            "levels[k] != levels[k + 1]))"),
+        ("key_constant_in_run", "forall(0, n_groups(), lambda r: forall(0, len(cnarr.data), lambda k: implies(LO <= k and k < HI, "
+                                "local_change_levels[k] == local_change_levels[LO])))".replace("LO", _LO).replace("HI", _HI)),
+        ("key_steps_between_runs", "forall(1, n_groups(), lambda r: let(lambda k: local_change_levels[k] < local_change_levels[k + 1], LO - 1))".replace("LO", _LO)),
+    ] + _RUN_CLAUSES,
     props=("C14",), domain="skip",
-    canaries=[("lo_ge", 'segarr["ci_lo"].values > 0', 'segarr["ci_lo"].values >= 0'),
-              ("hi_uses_lo", 'levels[segarr["ci_hi"].values < 0] = -1', 'levels[segarr["ci_lo"].values < 0] = -1')],
+    canaries=[("levels_ignored", "change_levels += chrom_col", "change_levels = chrom_col"),
+              ("chromosomes_ignored", "change_levels += chrom_col", "pass"),
+              (("abs_dropped", "cnvlib/segfilters.py::enumerate_changes"), ".abs()", ""),
+              (("counter_not_cumulative", "cnvlib/segfilters.py::enumerate_changes"), ".cumsum()", "")],
+    notes="verified for by_arm=False, tables without allele-specific columns (cn1/cn2) and levels without missing values; "
+          "pandas groupby(sort=False).apply on a neighbour-wise sorted key is modelled as 'maximal runs of equal key, in "
+          "order' (lemma adjacent_monotone), Series.unique/map as first-appearance rank",
 )
 
-contract(
-    "cnvlib/segfilters.py::sem",
-    params=dict(segarr=_SEGT, zscore=Real), returns=FunResT("SQUASH", "segarr"), requires=[],
-    ensures=[("levels_from_sem", "result == SQUASH(Vec(len(segarr.data), lambda k: "
-                                 "ite(segarr.data.log2[k] + segarr.data.sem[k] * zscore < 0, -1, "
-                                 "ite(segarr.data.log2[k] - segarr.data.sem[k] * zscore > 0, 1, 0))))")],
-    props=("C14",), domain="skip",
-    canaries=[("margin_sign", 'levels[segarr["log2"] - margin > 0] = 1', 'levels[segarr["log2"] + margin > 0] = 1')],
-)
 
-contract(
-    "cnvlib/segfilters.py::cn",
-    params=dict(segarr=_SEGT), returns=FunResT("SQUASH", "segarr"), requires=[],
-    ensures=[("levels_are_cn", "result == SQUASH(Vec(len(segarr.data), lambda k: segarr.data.cn[k]))")],
-    props=("C14",), domain="skip",
-    canaries=[("wrong_column", 'segarr["cn"]', 'segarr["probes"]')],
-)
+def _filter_contract(key, level_expr, extra_params=None, canaries=()):
+    wrap = "let(lambda cnarr, levels: %s, segarr, Vec(len(segarr.data), lambda k: " + level_expr + "))"
+    params = dict(segarr=_SEGT)
+    params.update(extra_params or {})
+    contract(
+        key, params=params, returns=_RESULT_T,
+        requires=[_SORTED_BY_CHROM.replace("T", "segarr"), "forall(0, len(segarr.data), lambda k: segarr.data.weight[k] >= 0)"],
+        ensures=[(lab, wrap % text) for lab, text in _RUN_CLAUSES],
+        props=("C14",), domain="skip", canaries=list(canaries),
+    )
+
+
+_filter_contract("cnvlib/segfilters.py::ci",
+                 "ite(segarr.data.ci_hi[k] < 0, -1, ite(segarr.data.ci_lo[k] > 0, 1, 0))",
+                 canaries=[("lo_ge", 'segarr["ci_lo"].values > 0', 'segarr["ci_lo"].values >= 0'),
+                           ("hi_uses_lo", 'levels[segarr["ci_hi"].values < 0] = -1', 'levels[segarr["ci_lo"].values < 0] = -1')])
+_filter_contract("cnvlib/segfilters.py::sem",
+                 "ite(segarr.data.log2[k] + segarr.data.sem[k] * zscore < 0, -1, "
+                 "ite(segarr.data.log2[k] - segarr.data.sem[k] * zscore > 0, 1, 0))",
+                 extra_params=dict(zscore=Real),
+                 canaries=[("margin_sign", 'levels[segarr["log2"] - margin > 0] = 1', 'levels[segarr["log2"] + margin > 0] = 1')])
+_filter_contract("cnvlib/segfilters.py::cn", "segarr.data.cn[k]",
+                 canaries=[("wrong_column", 'segarr["cn"]', 'segarr["probes"]')])
 
 
 # ----------------------------------------------------------------------------- deductive: what one merged run becomes
@@ -243,7 +306,9 @@ _GRP = TabT(opt=("probes", "depth", "cn", "p_bintest"), index="any", chromosome=
 
 contract(
     "cnvlib/segfilters.py::squash_region",
-    params=dict(cnarr=_GRP), returns=TabT(index="range"),
+    params=dict(cnarr=_GRP),
+    returns=TabT(opt=("depth", "cn", "p_bintest"), index="range", chromosome=CHROM, start=Int, end=Int, log2=Real, gene=GENE,
+                 probes=Int, weight=Real, depth=Real, cn=Real, p_bintest=Real),
     requires=["len(cnarr) >= 1", "forall(0, len(cnarr), lambda k: cnarr.weight[k] >= 0)"],
     ensures=[
         ("one_row", "len(result) == 1"),
